@@ -141,3 +141,72 @@ def convergence_violation(ex):
         toks, detail = diff_trees(a, b)
         return Violation("diverged", detail, tokens=list(toks), unhandled=[u[2] + "@" + u[3] for u in ex.world.unhandled][-4:])
     return None
+
+
+# ------------------------------------------------------------------------------------------ generic run template
+def drive(case, body, verdict, setup=None, shape_extra=None, family=None, generating=False):
+    """Build the world of case['cfg'], run `body(ex)` (generation or replay of case['plan']), go quiet, evaluate
+    `verdict(ex, case)` -> Violation | None | (None, probe-note).  Monitors may raise Violation at any step."""
+    ex = Exec(case["cfg"])
+    fp = FingerprintMonitor()
+    ex.monitors.append(fp)
+    note = None
+    v = None
+    try:
+        if setup:
+            setup(ex, case)
+        body(ex)
+        if generating:
+            case["plan"] = ex.plan
+        ex.epilogue()
+        r = verdict(ex, case)
+        if isinstance(r, tuple):
+            v, note = r
+        else:
+            v = r
+    except Violation as e:
+        v = e
+        if generating:
+            case["plan"] = ex.plan
+    st = base_stats(ex, family or case.get("family") or case.get("style"), fp, extra_shape=shape_extra(ex) if shape_extra else "")
+    if note:
+        st["probes"][note] = st["probes"].get(note, 0) + 1
+        st["nontrivial"] = False
+    for k, n in getattr(ex, "probes", {}).items():
+        st["probes"][k] = st["probes"].get(k, 0) + n
+    return {"case": case, "violation": v.as_dict() if v else None, "stats": st}
+
+
+def sched_after_op(rng, ex, style, maxsteps=3):
+    """the engine steps that follow one user operation, by schedule style"""
+    if style == "eager":
+        ex.apply(["Q"])
+    elif style == "batched":
+        for _ in range(rng.randrange(0, maxsteps + 1)):
+            ex.apply(["S", rng.randrange(3)])
+    elif style == "split":
+        for _ in range(rng.randrange(0, maxsteps + 2)):
+            wh = rng.randrange(3)
+            if wh < 2 and rng.random() < 0.6:
+                ex.apply(["E", wh, rng.randrange(1, 3)])
+            ex.apply(["S", wh])
+        if rng.random() < 0.15:
+            ex.apply(["T", rng.choice([0.001, 0.003, 0.02])])
+
+
+def all_payloads(tree):
+    return set(v[1] for v in (tree or {}).values() if v[0] == "f")
+
+
+def loss_violation(ex, exempt=()):
+    """C02's provenance rule: every payload a user wrote and no user destroyed is the content of some file on
+    at least one side ('.conflicted' names count)."""
+    w = ex.world
+    have = all_payloads(w.tree(0)) | all_payloads(w.tree(1))
+    lost = [p for p in ex.written if p not in ex.destroyed and p not in have and p not in exempt]
+    if lost:
+        lost.sort()
+        return Violation("content-lost", "payload(s) %s written by a user, never deleted/overwritten by a user, exist on neither side; local=%s remote=%s" % (
+            [p.decode("latin1") for p in lost], tree_str(w.tree(0)), tree_str(w.tree(1))), lost=[p.decode("latin1") for p in lost],
+            paths=[k for k, (s, i) in []])
+    return None
